@@ -340,6 +340,24 @@ func GenSFDatagram(t *rapid.T) SFDatagram {
 	for i := 0; i < ns; i++ {
 		d.Samples = append(d.Samples, GenSFSample(t))
 	}
+	if rapid.IntRange(0, 39).Draw(t, "manysamples") == 0 {
+		// many small samples: counts around the 6-, 8- and 9-bit marks (the real ones drawn above sit among them)
+		many := rapid.SampledFrom([]int{31, 32, 33, 63, 64, 65, 127, 128, 255, 256, 257, 300}).Draw(t, "nmany")
+		at := rapid.IntRange(0, len(d.Samples)).Draw(t, "manyat")
+		var small []SFSample
+		for i := 0; i < many; i++ {
+			switch i % 3 {
+			case 0:
+				small = append(small, SFSample{Kind: "unknown", Format: uint32(5 + i%7), Body: Hex{}})
+			case 1:
+				small = append(small, SFSample{Kind: "counter", Counter: &SFCounter{Seq: uint32(i), SrcIdx: uint32(i), Recs: []SFCounterRec{{Kind: "proc", Vals: []uint64{uint64(i), 2, 3, 4, 5}}}}})
+			default:
+				small = append(small, SFSample{Kind: "flow", Flow: &SFFlow{Seq: uint32(i), SrcIdx: uint32(i), Rate: 1, Recs: []SFFlowRec{{Kind: "switch", Switch: []uint32{uint32(i), 0, 2, 0}}}}})
+			}
+		}
+		all := append(append(append([]SFSample{}, d.Samples[:at]...), small...), d.Samples[at:]...)
+		d.Samples = all
+	}
 	return d
 }
 
